@@ -764,6 +764,32 @@ class Engine:
             d.taken = d.remaining.pop(0)
 
     # -- verdicts ---------------------------------------------------------------------------
+    def prove_linear(self, claim, label=''):
+        """Like prove, but under the *linear* conjuncts of the path condition only (a weaker hypothesis, so
+        `unsat` is still sound); used where the claim is linear and the path condition carries polynomial
+        constraints that would drag the query into QF_NRA.  A `sat` answer is re-checked with the full
+        path condition."""
+        e = z3bool(claim)
+        if not z3.is_true(e):
+            e = z3.simplify(e)
+        if z3.is_true(e):
+            self.stats['verdict_trivial'] = self.stats.get('verdict_trivial', 0) + 1
+            return True, None
+        s = z3.SolverFor('QF_LRA')
+        s.set('timeout', self.timeout_ms)
+        for c in self.path_cond:
+            if _is_linear(c):
+                s.add(c)
+        s.add(z3.Not(e))
+        t0 = time.time()
+        r = s.check()
+        self.stats['solver_s'] += time.time() - t0
+        if r == z3.unsat:
+            self.stats['verdict_queries'] += 1
+            self.stats['verdict_unsat'] += 1
+            return True, None
+        return self.prove(claim, label)
+
     def prove(self, claim, label='', extra=()):
         """True iff `path condition => claim` (unsat of the negation).  Returns (ok, model)."""
         e = z3bool(claim)
@@ -825,6 +851,40 @@ class Engine:
         if r == z3.sat:
             return m
         return None
+
+
+_LIN_CACHE = {}
+
+
+def _is_linear(e):
+    """No product of two non-numeral terms, no division by a non-numeral, no power."""
+    k = e.get_id()
+    hit = _LIN_CACHE.get(k)
+    if hit is not None and hit[1].eq(e):
+        return hit[0]
+    ok = True
+    stack = [e]
+    seen = set()
+    while stack and ok:
+        x = stack.pop()
+        i = x.get_id()
+        if i in seen:
+            continue
+        seen.add(i)
+        if z3.is_app(x):
+            kind = x.decl().kind()
+            ch = x.children()
+            if kind == z3.Z3_OP_MUL:
+                if sum(0 if z3.is_rational_value(c) or z3.is_int_value(c) else 1 for c in ch) > 1:
+                    ok = False
+            elif kind == z3.Z3_OP_DIV:
+                if not (z3.is_rational_value(ch[1]) or z3.is_int_value(ch[1])):
+                    ok = False
+            elif kind == z3.Z3_OP_POWER:
+                ok = False
+            stack.extend(ch)
+    _LIN_CACHE[k] = (ok, e)
+    return ok
 
 
 def _model_val(v):
